@@ -4,6 +4,21 @@ import json, subprocess
 
 CHECKS = {
  # id: (engine, level, technique, level text, level note, design_ref)
+ "C01": ("sched", "model_checking",
+         "TLA+ scheduler specification (ResSched.tla, one action per critical section of runWith/startWorker/processQueue/close): TLC checks MutualExclusion exhaustively for all interleavings of the MCSched configurations; TLC counterexamples of the unrepaired model and tlc -simulate behaviours are replayed on the real service through gate hooks, plus pairwise hook-point windows and perturbed stress; every real run is judged by occupancy monitors and by TLC evaluating the observer specification TraceSchedObs.tla on the recorded event trace",
+         "Exhaustive model checking of the design for small configurations (2-3 workers, 2 producers, Shutdown at any point, restart) bound to the code by replaying model behaviours into the real goroutines and by TLC judging the observation traces of all real runs; a violation is two callbacks of one group observed executing at once on the real service.",
+         "Harness callbacks stand for user handlers; steps inside sync primitives cannot be gated (replayed as closely as possible); group of a submission is taken from the real routing.",
+         "4.0 C01"),
+ "C02": ("sched", "model_checking",
+         "same machinery as C01; properties FifoPrefix, AtMostOnce, ExactlyOnce, Accounted, AppendOnly and the liveness property AcceptedRuns of ResSched.tla model-checked by TLC; on the real runs the enqueue order is taken from events logged under the service mutex and compared with callback start order by monitors and by TLC (TraceSchedObs clauses order/twice/lost/refused-ran)",
+         "Exhaustive model checking of order/exactly-once for the MCSched configurations plus TLC-judged observation traces of replayed, windowed and stressed real runs; a violation is a real callback that ran out of enqueue order, twice, after being refused, or not at all without a Shutdown.",
+         "Submission order is the order of runWith's critical sections (in-lock hook sequence numbers); exactly-once is judged only for runs in which no Shutdown raced with the submissions.",
+         "4.0 C02"),
+ "C03": ("sched", "model_checking",
+         "same machinery as C01; safety (NoPanic, AfterShutdown, NoLateStart, deadlock freedom with an explicit Terminated step) and liveness under weak fairness (ShutdownReturns, ServeReturns) of ResSched.tla model-checked by TLC including a restart cycle; every counterexample of the model with the repairs switched off (RecheckUnderLock/GuardedConn = FALSE) is replayed on the real service; monitors: Shutdown/Serve watchdog with goroutine-dump classification, panic capture in every role and child-process crash detection, callbacks relative to Shutdown's return, worker exits, Close count",
+         "Model checking of shutdown safety+liveness and restart, bound to the code by gate replay of model behaviours (including the model's own counterexamples as adversarial schedules) and TLC-judged observation traces; a violation is a real hang, panic, late callback, surviving worker or wrong close count.",
+         "Bounded time is the 3 s watchdog after all gates are opened; callbacks terminate; restart is explored after the previous Serve has returned.",
+         "4.0 C03"),
  "C06": ("muxdiff", "model_checking",
          "TLA+ routing reference (ResMux.tla: most-specific match, params, group templates, acceptance rules): TLC model-checks that the most specific match is well defined for every conflict-free pattern set of the bound, and judges every registration outcome and every GetHandler result recorded from real Mux configurations (all mount arrangements) against the reference (TraceMux.tla)",
          "Bounded-exhaustive model checking of the routing order plus conformance of the real mux on enumerated and random configurations x names; a violation is a real registration outcome or lookup result (or a lookup panic) that contradicts the reference.",
